@@ -80,7 +80,11 @@ def body(ch: Choices, vs: list[str], depth: int, in_loop: bool, budget: list[int
             e = expr(ch, vs)
             forms = (f"{t}[{expr(ch, vs, 1)}] = {e}", f"{t}.f = {e}", f"{t}: int = {e}", f"{t}: int",
                      f"{t} = {t2} = {e}", f"{t}, *{t2} = {e}", f"({t}, {t2}), {ch.pick(vs, 't3')} = {e}",
-                     f"{t}[{t2}] += {e}", f"{t}.f += {e}")
+                     f"{t}[{t2}] += {e}", f"{t}.f += {e}",
+                     # a subscript / attribute target next to a name target that it reads:
+                     # sibling targets are stored left to right
+                     f"{t}[{t2}], {t2} = {e}, 0", f"{t2}, {t}[{t2}] = 0, {e}",
+                     f"[{t}.f, {t}] = {e}, {t2}", f"{t2}, ({t}[{t2}], {t}) = {e}, ({e}, 1)")
             out.append(forms[ch.draw(len(forms), "sform")])
             continue
         if k < 5:
